@@ -13,6 +13,9 @@ def owner_of(body_name):
     return body_name.split("_ov")[0]
 
 
+EFFECT_ONLY_KEYS = ("E1", "E2")  # read by effects only (see gen_case)
+
+
 def relevant_projection(spec, o, forced_leaves=()):
     """Canonical text of `o` restricted to what the program can possibly refer to.
 
@@ -34,7 +37,8 @@ def relevant_projection(spec, o, forced_leaves=()):
                             if t2 not in tops:
                                 tops.add(t2)
                                 changed = True
-    proj = {k: o[k] for k in sorted(o) if k in tops}
+    # (an effect's own option: its VALUE is irrelevant to the dataset's value, its presence is not -- validate() insists on it)
+    proj = {k: ("§present" if k in EFFECT_ONLY_KEYS else o[k]) for k in sorted(o) if k in tops}
     if forced_leaves:
         import copy
 
@@ -87,7 +91,30 @@ class C02(HistoryProperty):
     THOROUGH = {"runs": 400000, "wall": 480}
     NONTRIVIAL_MEASURE = "history_with_checked_repeat"
 
+    def spec_valid(self, spec):
+        # an option on an effect-only key (E1 / E2) is read by effects and by nothing else
+        e_ids = {n["id"] for n in spec["nodes"] if n["k"] == "opt" and n["key"] in EFFECT_ONLY_KEYS}
+        for n in spec["nodes"]:
+            used = set(gen.children(n)) - set(n.get("effects_opt", []) if n["k"] == "dataset" else [])
+            if used & e_ids:
+                return False
+        return super().spec_valid(spec)
+
+    def _long_sweep_case(self, rng):
+        """A long sweep: one small cached dataset evaluated for well over a thousand distinct assignments (a Map over a long
+        list), then the same sweep again: every element of the second pass is a repeat."""
+        n = rng.choice([1100, 1300])
+        spec = {"nodes": [
+            {"k": "opt", "key": "A", "id": "n0"},
+            {"k": "dataset", "name": "SWEPT", "args": {"a": "n0"}, "cache": "recording", "id": "n1"},
+            {"k": "val", "v": list(range(n)), "id": "n2"},
+            {"k": "map", "target": "n1", "iterables": {"A": "n2"}, "values": True, "id": "n3"}], "roots": ["n3"]}
+        ops = [{"op": "evaluate", "node": "n3", "o": {}, "mut": "sweep"}, {"op": "evaluate", "node": "n3", "o": {}, "mut": "repeat"}]
+        return {"cfg": {}, "spec": spec, "ops": ops}
+
     def gen_case(self, rng, tier):
+        if rng.random() < 0.002:
+            return self._long_sweep_case(rng)
         cfg = gen.swarm_cfg(rng, off=("alloptions", "shape_change", "dangling"), on=("dsclass",))
         cfg["mutating_bodies"] = rng.random() < 0.4  # bodies that work in place on a section / list taken from the options
         if cfg["mutating_bodies"]:
@@ -168,6 +195,7 @@ class C02(HistoryProperty):
             w = World(spec)
             seen = set()
             checked_repeat = False
+            spec_effect_keys = sorted({by_id[x]["key"] for n in nodes if n["k"] == "dataset" for x in n.get("effects_opt", []) if x in by_id})
             # effects of derived datasets: a copy of their origin's list, taken when they were derived (= program construction)
             member_effects = {n["id"]: by_id[family_root(spec, n["id"])].get("effects", 0) for n in nodes if n["k"] == "derive"}
 
@@ -216,20 +244,28 @@ class C02(HistoryProperty):
                 body_runs = {name: c for (kind, name), c in delta.items() if kind == "body"}
                 cached_runs = {name: c for name, c in body_runs.items() if cached(name)}
                 key = (op["node"], relevant_projection(spec, op["o"], root_forced(op["node"])))
+                if any(k_ not in op["o"] for k_ in spec_effect_keys):
+                    # an effect's own option is missing: datasets carrying that effect fail AFTER their body ran and store
+                    # nothing, however often they are asked -- no memoization to speak of
+                    res.bump("ops_with_an_effect_option_missing")
+                    continue
                 if key in seen:
                     res.bump("equivalent_repeats_checked")
                     checked_repeat = True
                     if cached_runs:
                         res.violate("recomputed-on-equivalent-repeat", op_index=i, node=op["node"], o=op["o"], bodies=cached_runs, mutation=op.get("mut"))
                         break
-                seen.add(key)
+                if out.ok:
+                    # (a failed evaluation stores nothing; with effects that can fail AFTER the body ran, a failure is no
+                    #  reason to expect a hit later)
+                    seen.add(key)
                 if uniform:
                     res.bump("diamond_ops_checked")
                     twice = {name: c for name, c in cached_runs.items() if c > 1}
                     if twice:
                         res.violate("shared-dependency-ran-twice", op_index=i, node=op["node"], o=op["o"], bodies=twice)
                         break
-                v = self._check_effects(w, log_start, by_name, res, accept_for(op))
+                v = self._check_effects(w, log_start, by_name, res, accept_for(op), failed=not out.ok)
                 if v:
                     res.violate(v[0], op_index=i, node=op["node"], o=op["o"], **v[1])
                     break
@@ -242,7 +278,7 @@ class C02(HistoryProperty):
         return res
 
     @staticmethod
-    def _check_effects(w, log_start, by_name, res, accept=None):
+    def _check_effects(w, log_start, by_name, res, accept=None, failed=False):
         """Every store of D is preceded by one run of each of D's effects with the stored value; no other effect runs."""
         pending = {}  # dataset -> list of (effect index, value text)
         for ev in w.log.events[log_start:]:
@@ -251,6 +287,8 @@ class C02(HistoryProperty):
             _, _, kind, name, _, kw = ev
             if kind == "effect":
                 ds, idx = name.split("#")
+                if not idx.isdigit():
+                    continue  # an effect with an option parameter (D#o0): outside the per-store count
                 pending.setdefault(ds, []).append((int(idx), repr(_arg(kw, "v"))))
             elif kind == "backend" and name.endswith(".set"):
                 ds = name[: -len(".set")]
@@ -266,6 +304,9 @@ class C02(HistoryProperty):
                 for i, val in got:
                     if val != stored:
                         return "effect-saw-other-value", {"dataset": ds, "effect": i, "effect_value": val, "stored": stored}
+        if failed:
+            # (an effect that is an Evaluatable may fail -- its own option is missing -- after the plain ones ran: nothing is stored)
+            return None
         for ds, got in pending.items():
             n = by_name.get(ds)
             if n is not None and n.get("cache") != "nocache" and got:
